@@ -2,6 +2,8 @@ package pgwire
 
 import (
 	"encoding/binary"
+	"encoding/json"
+	"unicode/utf8"
 )
 
 // Protocol constants (from the protocol documentation).
@@ -58,6 +60,44 @@ type FMsg struct {
 	CountOverride map[string]int `json:"cnt,omitempty"`
 	// Rep (K "flood"): the body-less message of type T, Rep times in a row.
 	Rep int64 `json:"rep,omitempty"`
+}
+
+// S1 and S2 are byte strings (a query text need not be valid UTF-8), which
+// encoding/json would silently repair: such values travel as base64 instead.
+type fmsgPlain FMsg
+
+type fmsgJSON struct {
+	fmsgPlain
+	S1B []byte `json:"s1_bytes,omitempty"`
+	S2B []byte `json:"s2_bytes,omitempty"`
+}
+
+// MarshalJSON implements json.Marshaler.
+func (m FMsg) MarshalJSON() ([]byte, error) {
+	aux := fmsgJSON{fmsgPlain: fmsgPlain(m)}
+	if !utf8.ValidString(m.S1) {
+		aux.S1B, aux.S1 = []byte(m.S1), ""
+	}
+	if !utf8.ValidString(m.S2) {
+		aux.S2B, aux.S2 = []byte(m.S2), ""
+	}
+	return json.Marshal(aux)
+}
+
+// UnmarshalJSON implements json.Unmarshaler.
+func (m *FMsg) UnmarshalJSON(b []byte) error {
+	var aux fmsgJSON
+	if err := json.Unmarshal(b, &aux); err != nil {
+		return err
+	}
+	*m = FMsg(aux.fmsgPlain)
+	if aux.S1B != nil {
+		m.S1 = string(aux.S1B)
+	}
+	if aux.S2B != nil {
+		m.S2 = string(aux.S2B)
+	}
+	return nil
 }
 
 type enc struct{ b []byte }
